@@ -236,6 +236,13 @@ def optimize_or(sym):
     """left_vars = left._unique_variables_.filter(<lambda>); right_vars = ...; if left_vars == right_vars: return A(left, right) else: return B(left, right)"""
     fn = find(sym, ast.FunctionDef, '_optimize_or')
     b = body_wo_doc(fn)
+    guard = None
+    if len(b) == 4 and isinstance(b[0], ast.If):
+        # a constant operand (or_ takes SymbolicExpression | bool) goes straight to a node, which wraps it into a Literal:
+        #   if not isinstance(left, SymbolicExpression) or not isinstance(right, SymbolicExpression): return A(left, right)
+        need(ast.unparse(b[0].test) == 'not isinstance(left, SymbolicExpression) or not isinstance(right, SymbolicExpression)'
+             and not b[0].orelse, '_optimize_or: the guard for constant operands changed')
+        guard, b = b[0].body, b[1:]
     need(len(b) == 3 and isinstance(b[2], ast.If), '_optimize_or: unexpected statement list')
     need(ast.dump(b[2].test) == ast.dump(ast.parse('left_vars == right_vars').body[0].value), '_optimize_or: test changed')
 
@@ -247,6 +254,8 @@ def optimize_or(sym):
     lazy = all(ast.dump(b[i].value) == ast.dump(ast.parse(
         f'{s}._unique_variables_.filter(lambda v: not isinstance(v.value, Literal))').body[0].value) for i, s in ((0, 'left'), (1, 'right')))
     need(lazy, '_optimize_or: variable sets are no longer lazy HashedIterable.filter results')
+    # the model reads a disjunction with a constant operand as the node built for equal variable sets (the else-if)
+    need(guard is None or ret(guard) == ret(b[2].body), '_optimize_or: a constant operand no longer builds the node of equal variable sets')
     return ret(b[2].body), ret(b[2].orelse)
 
 
@@ -473,6 +482,22 @@ def cached_replay(sym):
                     and it.args[0].func.attr == 'retrieve')
         need(direct or filtered, f'BinaryOperator.{name}: the loop does not run over cache.retrieve(...)')
         ok = ok and filtered
+        if name == 'yield_final_output_from_cache':
+            # a replayed row is classified by ITS OWN truth flag: the flag is set before the row is tested against the seen set
+            # (_is_duplicate_output_ reads self._is_false_ to choose the required variables and the set), and only false rows are tested
+            body = loops[0].body
+            pos_flag = [i for i, st in enumerate(body) if isinstance(st, ast.Assign) and len(st.targets) == 1
+                        and ast.unparse(st.targets[0]) == 'self._is_false_' and ast.unparse(st.value) == 'is_false']
+            pos_dup = [i for i, st in enumerate(body) if '_is_duplicate_output_' in ast.dump(st)]
+            need(len(pos_flag) == 1 and len(pos_dup) == 1 and pos_flag[0] < pos_dup[0],
+                 'BinaryOperator.yield_final_output_from_cache: the truth flag of a replayed row is no longer set before the row is '
+                 'tested against the seen set')
+            st = body[pos_dup[0]]
+            need(isinstance(st, ast.If) and ast.unparse(st.test) == 'is_false and self._is_duplicate_output_(output)'
+                 and len(st.body) == 1 and isinstance(st.body[0], ast.Continue) and not st.orelse,
+                 'BinaryOperator.yield_final_output_from_cache: the duplicate test of replayed rows has another shape')
+            need(isinstance(body[-1], ast.Expr) and isinstance(body[-1].value, ast.Yield) and ast.unparse(body[-1].value.value) == 'output',
+                 'BinaryOperator.yield_final_output_from_cache: the replayed row is no longer yielded last')
     mg = method(cls, '_most_general_')
     src = ast.dump(mg)
     # the selection itself is modelled by hand (IndexedMemo_Facts.most_general); here only its ingredients are pinned:
